@@ -90,8 +90,6 @@ structure MSt (σ α β : Type) where
   sopen : Nat → Bool := fun _ => false
   /-- the context source `k` was subscribed with -/
   sctx : Nat → Ctx := fun _ => {}
-  /-- hot sources: index of the next notification of the script -/
-  pos : Nat → Nat := fun _ => 0
   downOpen : Bool := true
   /-- the subscribe function has returned and its Teardown is registered -/
   booted : Bool := false
@@ -170,36 +168,50 @@ def bootSt (sub : Ctx) : MSt σ α β :=
 def feed (r : MSt σ α β) (e : MEvent α) : MSt σ α β :=
   if r.subs e.1 = 0 then r else deliver m (phasesAt m cfg (depth cfg)) e.1 r e.2
 
-/-- one step of the interleaving: hot source `k` sends the next notification of its script -/
-def hotStep (r : MSt σ α β) (k : Nat) : MSt σ α β :=
-  match (cfg.script k)[r.pos k]? with
-  | none => r
-  | some n =>
-    if cfg.sync k then r
-    else feed m cfg { r with pos := setAt r.pos k (r.pos k + 1) } (k, n)
-
-/-- Run: subscribe with context `sub`, then follow the interleaving. -/
-def runMulti (sub : Ctx) (order : List Nat) : MSt σ α β :=
-  order.foldl (hotStep m cfg) (bootSt m cfg sub)
-
-/-- Run with an external `Unsubscribe` after `c` steps of the interleaving. -/
-def runMultiCut (sub : Ctx) (order : List Nat) (c : Nat) : MSt σ α β :=
-  (order.drop c).foldl (hotStep m cfg) (((order.take c).foldl (hotStep m cfg) (bootSt m cfg sub)).cut m)
-
 end interp
 
-/-- the notifications the hot sources actually send along an interleaving, tagged, in arrival
-    order (entries naming an exhausted or synchronous source send nothing) -/
+/-- the notification (if any) that step `k` of an interleaving makes a probe send, given how far
+    each hot probe is in its script: entries naming an exhausted or synchronous source send nothing -/
+def nextEvent (cfg : Sources α) (pos : Nat → Nat) (k : Nat) : Option (MEvent α) :=
+  match (cfg.script k)[pos k]? with
+  | none => none
+  | some n => if cfg.sync k then none else some (k, n)
+
+/-- the notifications the hot sources send along an interleaving, tagged, in arrival order -/
 def eventsFrom (cfg : Sources α) : (Nat → Nat) → List Nat → List (MEvent α)
   | _, [] => []
   | pos, k :: ks =>
-    match (cfg.script k)[pos k]? with
+    match nextEvent cfg pos k with
     | none => eventsFrom cfg pos ks
-    | some n =>
-      if cfg.sync k then eventsFrom cfg pos ks
-      else (k, n) :: eventsFrom cfg (setAt pos k (pos k + 1)) ks
+    | some e => e :: eventsFrom cfg (setAt pos k (pos k + 1)) ks
+
+/-- script positions after an interleaving prefix -/
+def posAfter (cfg : Sources α) : (Nat → Nat) → List Nat → (Nat → Nat)
+  | pos, [] => pos
+  | pos, k :: ks =>
+    match nextEvent cfg pos k with
+    | none => posAfter cfg pos ks
+    | some _ => posAfter cfg (setAt pos k (pos k + 1)) ks
 
 def eventsOf (cfg : Sources α) (order : List Nat) : List (MEvent α) := eventsFrom cfg (fun _ => 0) order
+
+section run
+variable (m : MMachine σ α β) (cfg : Sources α)
+
+/-- a sequence of arrivals, each processed to quiescence -/
+def feedAll (r : MSt σ α β) (evs : List (MEvent α)) : MSt σ α β := evs.foldl (feed m cfg) r
+
+/-- Run: subscribe with context `sub`, then follow the interleaving `order` (entry `k`: hot source
+    `k` sends the next notification of its script). -/
+def runMulti (sub : Ctx) (order : List Nat) : MSt σ α β :=
+  feedAll m cfg (bootSt m cfg sub) (eventsOf cfg order)
+
+/-- Run with an external `Unsubscribe` after `c` steps of the interleaving. -/
+def runMultiCut (sub : Ctx) (order : List Nat) (c : Nat) : MSt σ α β :=
+  feedAll m cfg ((runMulti m cfg sub (order.take c)).cut m)
+    (eventsFrom cfg (posAfter cfg (fun _ => 0) (order.take c)) (order.drop c))
+
+end run
 
 /-- teardown counter of source `k`'s probe: its subscriber has been closed (own terminal or
     `Unsubscribe`), which runs the source's teardown exactly once (`subscriber.go:265-268`) -/
